@@ -82,8 +82,93 @@ def gen_cases(rng, tier):
         n = rng.choice(sizes) if rng.random() < 0.7 else rng.randint(1, 12)
         p = rng.randint(1, 6)
         ploidy = rng.choice([1, 2, 2, 2, 3]) if phased else rng.choice([1, 2, 2, 2, 4])
-        cases.append({"kind": "phased" if phased else "unphased", "ploidy": ploidy, "mat": _matrix(rng, n, p, ploidy, phased)})
+        c = {"kind": "phased" if phased else "unphased", "ploidy": ploidy, "mat": _matrix(rng, n, p, ploidy, phased)}
+        # how the object is obtained: directly, or through the library's own structural operations / copies / the mat setter
+        # (the statistics must describe the matrix the object holds NOW: cached ploidy, stale shapes ... must not leak in)
+        if rng.random() < 0.45:
+            c["route"] = rng.choice(ROUTES_PHASED if phased else ROUTES_UNPHASED); c["rseed"] = rng.randrange(1 << 30)
+        cases.append(c)
+    for phased in (False, True):                                  # every route at least twice per run
+        for route in (ROUTES_PHASED if phased else ROUTES_UNPHASED):
+            for ploidy in ((2, 3) if phased else (2, 4)):
+                n = rng.randint(2, 9); p = rng.randint(1, 5)
+                cases.append({"kind": "phased" if phased else "unphased", "ploidy": ploidy, "mat": _matrix(rng, n, p, ploidy, phased),
+                              "route": route, "rseed": rng.randrange(1 << 30)})
     return cases
+
+ROUTES_PHASED = ("append_phase", "append_generic_phase", "remove_phase", "incorp_phase", "select_phase", "adjoin_phase", "append_taxa",
+                 "select_taxa", "remove_taxa", "mat_setter", "copy", "deepcopy")
+ROUTES_UNPHASED = ("append_taxa", "adjoin_taxa", "select_taxa", "delete_taxa", "remove_taxa", "insert_taxa", "concat_taxa", "select_vrnt",
+                   "adjoin_vrnt", "mat_setter", "copy", "deepcopy")
+
+def _build(case):
+    """the genotype-matrix object holding case['mat'], obtained by the route of the case"""
+    import copy as _copy, random as _random
+    from pybrops.popgen.gmat.DenseGenotypeMatrix import DenseGenotypeMatrix
+    from pybrops.popgen.gmat.DensePhasedGenotypeMatrix import DensePhasedGenotypeMatrix
+    mat = numpy.array(case["mat"], dtype="int8")
+    ph = case["kind"] == "phased"
+    mk = (lambda a: DensePhasedGenotypeMatrix(numpy.ascontiguousarray(a))) if ph else (lambda a: DenseGenotypeMatrix(numpy.ascontiguousarray(a), ploidy=case["ploidy"]))
+    route = case.get("route", "direct")
+    r = _random.Random(case.get("rseed", 0))
+    tax = 1 if ph else 0; vax = 2 if ph else 1
+    n = mat.shape[tax]; p = mat.shape[vax]; m = mat.shape[0] if ph else None
+    junk = lambda shape: numpy.array([r.randint(0, 1 if ph else case["ploidy"]) for _ in range(int(numpy.prod(shape)))], dtype="int8").reshape(shape)
+    if route == "direct": return mk(mat)
+    if route == "copy": return _copy.copy(mk(mat))
+    if route == "deepcopy": return _copy.deepcopy(mk(mat))
+    if route == "mat_setter":
+        shp = list(mat.shape)
+        if ph: shp[0] = r.choice([1, 2, 3, 4])
+        shp[tax] = r.randint(1, n + 2)
+        g = mk(junk(shp)); g.mat = mat.copy(); return g
+    if route in ("append_phase", "append_generic_phase", "adjoin_phase") and m >= 2:
+        k = r.randint(1, m - 1); g = mk(mat[:k])
+        if route == "append_phase": g.append_phase(mat[k:].copy()); return g
+        if route == "append_generic_phase": g.append(mat[k:].copy(), axis=0); return g
+        return g.adjoin_phase(mat[k:].copy())
+    if route == "remove_phase":
+        e = r.randint(1, 2); big = numpy.concatenate([mat, junk((e,) + mat.shape[1:])], axis=0)
+        perm = list(range(m + e)); r.shuffle(perm); inv = sorted(range(m + e), key=lambda i: perm[i])
+        g = mk(big[perm]); g.remove_phase([i for i in range(m + e) if perm[i] >= m])
+        order = [perm[i] for i in range(m + e) if perm[i] < m]          # phases left, in their current order
+        return mk(mat) if order != sorted(order) and False else _reorder_phase(g, order)
+    if route == "incorp_phase" and m >= 2:
+        j = r.randrange(m); g = mk(numpy.delete(mat, j, axis=0)); g.incorp_phase([j], mat[j:j + 1].copy()); return g
+    if route == "select_phase":
+        e = r.randint(0, 2); big = numpy.concatenate([mat, junk((e,) + mat.shape[1:])], axis=0) if e else mat
+        return mk(big).select_phase(list(range(m)))
+    if route in ("append_taxa", "adjoin_taxa") and n >= 2:
+        k = r.randint(1, n - 1); a, b = numpy.take(mat, range(k), axis=tax), numpy.take(mat, range(k, n), axis=tax)
+        g = mk(a)
+        if route == "append_taxa": g.append_taxa(b.copy()); return g
+        return g.adjoin_taxa(b.copy())
+    if route in ("select_taxa", "delete_taxa", "remove_taxa"):
+        e = r.randint(1, 3); shp = list(mat.shape); shp[tax] = e
+        big = numpy.concatenate([mat, junk(shp)], axis=tax)
+        g = mk(big)
+        if route == "select_taxa": return g.select_taxa(list(range(n)))
+        if route == "delete_taxa": return g.delete_taxa(list(range(n, n + e)))
+        g.remove_taxa(list(range(n, n + e))); return g
+    if route == "insert_taxa" and n >= 2:
+        j = r.randrange(n); g = mk(numpy.delete(mat, j, axis=tax))
+        return g.insert_taxa([j], numpy.take(mat, [j], axis=tax).copy())
+    if route == "concat_taxa" and n >= 2:
+        k = r.randint(1, n - 1)
+        return type(mk(mat)).concat_taxa([mk(numpy.take(mat, range(k), axis=tax)), mk(numpy.take(mat, range(k, n), axis=tax))])
+    if route == "select_vrnt":
+        e = r.randint(1, 2); shp = list(mat.shape); shp[vax] = e
+        return mk(numpy.concatenate([mat, junk(shp)], axis=vax)).select_vrnt(list(range(p)))
+    if route == "adjoin_vrnt" and p >= 2:
+        k = r.randint(1, p - 1)
+        return mk(numpy.take(mat, range(k), axis=vax)).adjoin_vrnt(numpy.take(mat, range(k, p), axis=vax).copy())
+    return mk(mat)
+
+def _reorder_phase(g, order):
+    """phases of g are the wanted ones in the order `order` (a permutation of 0..m-1): bring them to 0..m-1"""
+    if order != sorted(order):
+        g = g.select_phase([order.index(i) for i in range(len(order))])
+    return g
 
 def _hx(a):
     a = numpy.asarray(a, dtype=float)
@@ -95,12 +180,10 @@ def run_impl(case):
     from pybrops.popgen.gmat.DenseGenotypeMatrix import DenseGenotypeMatrix
     from pybrops.popgen.gmat.DensePhasedGenotypeMatrix import DensePhasedGenotypeMatrix
     mat = numpy.array(case["mat"], dtype="int8")
-    if case["kind"] == "phased":
-        g = DensePhasedGenotypeMatrix(mat)
-    else:
-        g = DenseGenotypeMatrix(mat, ploidy=case["ploidy"])
+    g = _build(case)
     before = mat.copy()
     out = {}
+    out["route_ok"] = bool(numpy.array_equal(g.mat, mat)) and g.mat.dtype == mat.dtype
     out["ploidy"] = int(g.ploidy)
     out["tacount"] = g.tacount().tolist()
     out["tafreq"] = _hx(g.tafreq())
@@ -211,7 +294,8 @@ def pred(case, out):
     n, p = dos.shape
     N = ploidy * n
     c = [int(x) for x in dos.sum(0)]
-    if out["ploidy"] != ploidy: bad.append("ploidy")
+    if out["ploidy"] != ploidy: bad.append("ploidy reported %r for a matrix of ploidy %d (route %s)" % (out["ploidy"], ploidy, case.get("route", "direct")))
+    if not out.get("route_ok", True): bad.append("route %s did not produce the intended matrix" % case.get("route"))
     if out["tacount"] != dos.tolist(): bad.append("tacount != per-taxon allele count")
     if out["acount"] != c: bad.append("acount != column sums")
     fr = [_fh(h) for h in out["afreq"]]
@@ -299,7 +383,7 @@ def describe(case, out):
     n = dos.shape[0]
     return {"kind": case["kind"], "ploidy": case["ploidy"], "ntaxa_bucket": "inexact-reciprocal" if n * case["ploidy"] in
             (49, 98, 103, 107, 161, 187, 196, 197, 206, 214, 322, 374, 392, 394) else ("1" if n == 1 else ("2-12" if n <= 12 else "13-130")),
-            "nloci": dos.shape[1], "raised": "exc" in out}
+            "nloci": dos.shape[1], "raised": "exc" in out, "route": case.get("route", "direct")}
 
 def classify(case, out, clauses):
     return None
